@@ -95,8 +95,12 @@ def program? : Sexp → Option Program
              attrs0 := ← attrs? at0, flavour := ← flavour? fl }
   | _ => none
 
+/-- the optional third component carries *realisation hints* for the harness (which of several Python
+realisations of the same model behaviour to use, e.g. a cleanup registered through a fixture whose
+`getDetails()` raises); they do not change the model's behaviour and are ignored here -/
 def input? : Sexp → Option Input
   | .list [p, n] => do some { prog := ← program? p, runs := ← nat? n }
+  | .list [p, n, _hints] => do some { prog := ← program? p, runs := ← nat? n }
   | _ => none
 
 def details? : Sexp → Option Details := list? (pair? dname? content?)
